@@ -26,6 +26,7 @@ RULE = ('Seeded include trees to depth 4 and fan-out 3 over a virtual file syste
         '>= 2 with a directory or base change between levels and an include issued after a nested include returned. Distinct by file system.')
 RULE += " Also: the including function reached through arrayIndexOf / arrayLastIndexOf / systemPartial; the root model executed as built (`'system': False` spelled out); include cycles with a terminating guard (self-include, ping-pong); URLs that are a scheme and a colon without `//`."
 RULE += ' Round 7: included files that exist and are empty (zero characters, blanks, a comment only); urlFn / systemPrefix options spelled out as None.'
+RULE += ' Round 9: files of the same name (util.bare, common.bare) in different directories, each included by a sibling through the same reference text.'
 RULE += ' Round 8: trees that live below a base whose scheme the URL test does not recognise (s3://, HTTPS://, h2://): such a base is a path and comes out of the resolution as it went in; locations of 120-160 characters (a parser error names them in full).'
 ASSUMPTIONS = ['include cycles are generated only with a terminating guard (an unguarded self-include recurses until the host stack is exhausted; outside the property)',
                'system prefixes end with a slash; locations are compared after dot-segment / normpath normalisation']
@@ -35,6 +36,7 @@ _LONG = 'releases/2026-10-03T08-15-00Z/static/scripts/application/components/for
 REL_DIRS = ['', 'lib/', 'lib/sub/', 'other/', 'lib/sub/deep/', 'lib/' + _LONG]
 ABS_DIRS = ['/abs/', '/abs/d/', '/srv/www/customer-portal/' + _LONG]
 URL_DIRS = ['http://h/base/', 'http://h/base/x/', 'http://h/other/', 'https://k/', 'file:/srv/shared/', 'vfs:/pkg/', 'http://h/base/' + _LONG]      # (a URL is a scheme and a colon - no // needed)
+SIBLING_NAMES = ['util.bare', 'util.bare', 'common.bare']
 SYS_PREFIXES = ['sys/', 'http://h/sys/', '/opt/sys/', 'lib/sys/', None, '']       # ('' is a configured prefix too: the current directory)
 
 
@@ -77,18 +79,26 @@ class World:
         self.n = 0
         self.classes = set()
         self.depth_seen = 0
+        self.nosib = 0           # > 0 while a file is generated that is moved below the system prefix afterwards (its directory is not final)
+        self.pending = set()     # locations of files whose statements are still being generated (ancestors of the file in hand)
 
-    def new_file(self, depth, parent_kind, level=1):
+    def new_file(self, depth, parent_kind, level=1, force_loc=None):
         r = self.r
         self.n += 1
         self.depth_seen = max(self.depth_seen, level)
-        if parent_kind == 'rel':
+        if force_loc is not None:
+            d = None
+        elif parent_kind == 'rel':
             d = r.choice(REL_DIRS + REL_DIRS + ABS_DIRS[:1] + URL_DIRS[:2])
         elif parent_kind == 'abs':
             d = r.choice(ABS_DIRS + ABS_DIRS + URL_DIRS[:1])
         else:
             d = r.choice(URL_DIRS + URL_DIRS + ABS_DIRS[:1])
-        loc = d + r.choice(['f%d.bare'] * 6 + ["it's%d.bare", 'b\\k%d.bare', 'sp ace%d.bare', 'q"%d.bare']) % self.n       # (quotes, a backslash, a blank in a file name)
+        if force_loc is not None:
+            loc = force_loc
+        else:
+            loc = d + r.choice(['f%d.bare'] * 6 + ["it's%d.bare", 'b\\k%d.bare', 'sp ace%d.bare', 'q"%d.bare']) % self.n       # (quotes, a backslash, a blank in a file name)
+        self.pending.add(normloc(loc))
         fid = 'F%d' % self.n
         stmts = [c08.log_stmt('begin ' + fid)]
         included_before = False
@@ -116,7 +126,9 @@ class World:
                 self.classes.add('function-in-include')
             elif k < 0.81 and depth > 0:
                 # an include statement inside a function body: it still runs in global scope, resolved against the file that calls it
+                self.nosib += 1          # (the include is resolved against whichever file calls the function: no common names here)
                 inc = self.make_include(loc, depth, level)
+                self.nosib -= 1
                 if inc is not None:
                     name = 'incfn' + fid
                     stmts.append({'function': {'name': name, 'args': ['v' + fid], 'statements': [
@@ -146,6 +158,7 @@ class World:
             stmts.append({'expr': {'name': 'r' + fid, 'expr': {'function': {'name': name, 'args': [{'string': fid}]}}}})
         stmts.append(c08.log_stmt('end ' + fid))
         self.files[normloc(loc)] = ('ok', {'statements': stmts})
+        self.pending.discard(normloc(loc))
         self.done.append(loc)
         return loc
 
@@ -207,7 +220,9 @@ class World:
                 self.classes.add('same-file-again')
                 return {'url': ref}
         if k < 0.45 and self.sys is not None:
+            self.nosib += 1
             child = self.new_file(depth - 1, kind_of(self.sys), level + 1)
+            self.nosib -= 1
             name = r.choice(['', 'sub/']) + 's_' + posixpath.basename(child)
             self.files[normloc(self.sys + name)] = self.files.pop(normloc(child))
             self.done[self.done.index(child)] = self.sys + name
@@ -219,6 +234,16 @@ class World:
             ref = mkref(r, frm, child)
             self.classes.add('system-include-without-prefix')
             return {'url': ref, 'system': True} if ref else None
+        if k < 0.64 and self.nosib == 0:
+            # a sibling with a common name: different directories hold different files called util.bare, and each includer writes the same
+            # reference text for its own one (a result remembered by the text of the reference instead of the resolved location shows here)
+            m = re.match(r'^(.*/)?[^/]*$', frm)
+            sib = (m.group(1) or '') + r.choice(SIBLING_NAMES)
+            if normloc(sib) not in self.files and normloc(sib) not in self.pending and normloc(sib) != normloc(frm):
+                if any(posixpath.basename(f) == posixpath.basename(normloc(sib)) for f in list(self.files) + list(self.pending)):
+                    self.classes.add('same-reference-text-different-file')
+                child = self.new_file(depth - 1, kind_of(frm), level + 1, force_loc=sib)
+                return {'url': posixpath.basename(sib)}
         child = self.new_file(depth - 1, kind_of(frm), level + 1)
         ref = mkref(r, frm, child)
         if ref is None:
